@@ -49,7 +49,9 @@ type c15Model struct {
 	used  map[string]bool // every login ever named
 }
 
-var c15Pws = []string{"", "p", "q"}
+var c15Pws = []string{"", "p", "q", "\xffz"} // the last one starts with wire byte 0x00 (obfuscated 0xFF)
+
+var c15LongLogin = strings.Repeat("L", 252) // its account file name exceeds the 255-byte limit: the write fails
 
 var c15AccessA = world.Bits(ref.PReadChat, ref.PSendChat, ref.PDownloadFile)
 var c15AccessB = world.Bits(ref.PReadChat, ref.PNewsReadArt)
@@ -80,6 +82,12 @@ func parseSub(s string) c15Sub {
 	}
 	if sub.pw == "MARK" {
 		sub.pw = "\x00"
+	}
+	if sub.pw == "Z" {
+		sub.pw = "\xffz"
+	}
+	if sub.login == "LONG" {
+		sub.login = c15LongLogin
 	}
 	return sub
 }
@@ -183,11 +191,23 @@ func (x *c15World) apply(op string) bool {
 	case "new":
 		q := strings.Split(p[1], ",")
 		s := c15Sub{kind: "create", login: q[0], pw: q[1]}
+		if s.login == "LONG" {
+			s.login = c15LongLogin
+		}
 		if !x.m.enabled(s) {
 			return false
 		}
 		a := accOf(0)
-		x.adm.Req(ref.TNewUser, ref.F(ref.FUserLogin, obf(s.login)), ref.FS(ref.FUserName, "N-"+s.login), ref.F(ref.FUserPassword, obf(s.pw)), ref.F(ref.FUserAccess, a[:]))
+		longID := x.adm.Req(ref.TNewUser, ref.F(ref.FUserLogin, obf(s.login)), ref.FS(ref.FUserName, "N-"+s.login), ref.F(ref.FUserPassword, obf(s.pw)), ref.F(ref.FUserAccess, a[:]))
+		if s.login == c15LongLogin {
+			// whether a login this long can be stored is the file system's business: the model follows the reply,
+			// the four views must agree with it either way
+			world.Settle(5 * time.Second)
+			if r := x.adm.Reply(longID); r == nil || r.Err != 0 {
+				x.m.used[s.login] = true
+				return true
+			}
+		}
 		x.m.applySub(s)
 	case "set":
 		s := parseSub("modify," + p[1])
@@ -206,6 +226,9 @@ func (x *c15World) apply(op string) bool {
 		x.m.applySub(s)
 	case "del":
 		s := c15Sub{kind: "delete", login: p[1]}
+		if s.login == "LONG" {
+			s.login = c15LongLogin
+		}
 		if !x.m.enabled(s) {
 			return false
 		}
@@ -353,6 +376,9 @@ func (x *c15World) check() string {
 	ents, _ := os.ReadDir(x.wd.UsersDir)
 	onDisk := map[string]c15View{}
 	for _, e := range ents {
+		if !strings.HasSuffix(e.Name(), ".yaml") {
+			continue // only *.yaml files are accounts (temporary files are not)
+		}
 		raw, _ := os.ReadFile(filepath.Join(x.wd.UsersDir, e.Name()))
 		var doc struct {
 			Login    string                 `yaml:"Login"`
@@ -465,12 +491,13 @@ func c15Alphabet(thorough bool) []string {
 	logins := []string{"a", "b", "c d"}
 	for _, l := range logins {
 		a = append(a, "new:"+l+",p", "new:"+l+",")
-		a = append(a, "set:"+l+",MARK,B", "set:"+l+",q", "set:"+l+",-")
+		a = append(a, "set:"+l+",MARK,B", "set:"+l+",q", "set:"+l+",-", "set:"+l+",Z")
 		a = append(a, "del:"+l)
 	}
 	for _, l := range logins[:2] {
 		a = append(a, "batch:create,"+l+",p", "batch:modify,"+l+",MARK,B", "batch:modify,"+l+",q", "batch:modify,"+l+",-", "batch:delete,"+l)
 	}
+	a = append(a, "new:LONG,p", "del:LONG", "set:LONG,q")
 	a = append(a, "batch:rename,a,b", "batch:rename,b,a", "batch:rename,a,c d", "batch:rename,c d,a")
 	a = append(a,
 		"batch:create,a,p+modify,a,q",
